@@ -2,7 +2,8 @@
 """C01 - a sketch holds exactly the retained hashes of everything added to it."""
 import os, sys
 sys.path.insert(0, os.path.dirname(os.path.abspath(__file__)))
-import mhprop
+sys.path.insert(0, os.path.dirname(os.path.dirname(os.path.abspath(__file__))))
+import streamlib
 from streams import mh
 
 TB = [
@@ -20,4 +21,4 @@ RULE = ("histories of 1..60 Python-API ops (add/add_many/add_hash_with_abundance
         "modes; a history is non-trivial when >= 3 ops changed an observed sketch state; distinct = distinct op lists")
 
 if __name__ == "__main__":
-    mhprop.run("C01", ["content", "content", "setops"], mh.oracle_content, 1500, 60000, TB, AS, RULE)
+    streamlib.run_property("C01", mh, ["content", "content", "setops"], mh.oracle_content, 1500, 60000, TB, AS, RULE, nontrivial=mh.nontrivial)
